@@ -8,7 +8,8 @@
   * the common header is read as 8 bytes at offset 0 and parsed by `InventoryCommonHeader`
   * `_read_fru_area`: 5 bytes at the area offset, then `data[1] * 8` bytes, handed to the area
     class as a `bytes` object (so BCD+ text decodes on this path even as shipped); a length byte 0
-    reads nothing and yields an attribute-less area object
+    reads nothing and yields an attribute-less area object – as shipped (`devLenLax`); repaired:
+    `if count == 0: raise DecodingError`
   * `get_fru_multirecord_area`: record headers are read one by one (5 bytes each) following the
     length bytes until the end-of-list flag, then the whole area is read and parsed
   * the resulting `FruInventory` carries no `common_header`
@@ -33,6 +34,8 @@ def devArea (v : Variant) (kind : AreaKind) (store : List Nat) (off : Nat) : Out
   if off = 0 then .ok .absent
   else
     (devRead store off 5).bind fun d5 =>
+    if !v.devLenLax && d5.getD 1 0 * 8 == 0 then .decodingError
+    else
     (devRead store off (d5.getD 1 0 * 8)).bind fun d =>
     parseArea v .bytes kind d
 
@@ -44,12 +47,12 @@ def devMrLen : Nat → List Nat → Nat → Nat → Outcome Nat
     if d.getD 1 0 / 128 % 2 == 1 then .ok (count + (d.getD 2 0 + 5))
     else devMrLen fuel store (off + (d.getD 2 0 + 5)) (count + (d.getD 2 0 + 5))
 
-def devMulti (store : List Nat) (off : Nat) : Outcome (Slot (List RecView)) :=
+def devMulti (v : Variant) (store : List Nat) (off : Nat) : Outcome (Slot (List RecView)) :=
   if off = 0 then .ok .absent
   else
     (devMrLen (store.length + 1) store off 0).bind fun count =>
     (devRead store off count).bind fun d =>
-    parseMulti d
+    parseMulti v d
 
 /-- `Fru.get_fru_inventory()` -/
 def parseFruDevice (v : Variant) (store : List Nat) : Outcome FruView :=
@@ -58,7 +61,7 @@ def parseFruDevice (v : Variant) (store : List Nat) : Outcome FruView :=
   (devArea v .chassis store h.chassisOff).bind fun c =>
   (devArea v .board store h.boardOff).bind fun b =>
   (devArea v .product store h.productOff).bind fun p =>
-  (devMulti store h.multiOff).bind fun m =>
+  (devMulti v store h.multiOff).bind fun m =>
   .ok ⟨none, c, b, p, m⟩
 
 end PyIpmi.Fru
